@@ -93,6 +93,10 @@ CASES = [
   ("N58 swap64: operands of `|` exchanged — equal in value, but the order of the two overflow checks changes (conservative)", False, sub1("$X1(self.0 << 64 | self.0 >> 64)", "$X1(self.0 >> 64 | self.0 << 64)")),
   ("N59 vec2 xor_store: the two stores exchanged (order of the bounds checks: conservative)", False, sub1("xs[0] ^= self.0;\n                xs[1] ^= self.1;", "xs[1] ^= self.1;\n                xs[0] ^= self.0;")),
   ("N60 u128x1 BitXorAssign: `^=` -> `|=`", False, sub1("self.0 ^= rhs.0;", "self.0 |= rhs.0;")),
+  ("N61 an impl under #[cfg(debug_assertions)] (conditional compilation of an item: loud)", False, sub1("impl AddAssign for u32x4x4 {", "#[cfg(debug_assertions)]\nimpl AddAssign for u32x4x4 {")),
+  ("N62 a statement under #[cfg(debug_assertions)] inside a body (loud)", False, sub1("                xs[0] = self.0;\n", "                #[cfg(debug_assertions)]\n                xs[0] = self.0;\n")),
+  ("N63 a further instantiation `define_vec4!(u16x4, u16)`", False, sub1("define_vec4!(u64x4, u64);", "define_vec4!(u64x4, u64);\ndefine_vec4!(u16x4, u16);")),
+  ("N64 u128x1: hand-written Clone that is not the identity (derive dropped)", False, both(sub1("#[derive(Copy, Clone)]\n        pub struct $X1($word);", "#[derive(Copy)]\n        pub struct $X1($word);"), sub1("        impl AddAssign for $X1 {", "        impl Clone for $X1 {\n            fn clone(&self) -> Self {\n                $X1(!self.0)\n            }\n        }\n        impl AddAssign for $X1 {"))),
   # ------------------------------------------------------------------ harmless
   ("P01 vec2 extract: local renamed", True, sub1("let x = [self.0, self.1];\n                x[i as usize]", "let lanes = [self.0, self.1];\n                lanes[i as usize]")),
   ("P02 swap: temporaries for the two halves (same evaluation order)", True, sub1(VEC1_SWAP, "let lo = (self.0 & m) >> i;\n                let hi = ((self.0) << i) & m;\n                $X1(lo | hi)")),
